@@ -18,6 +18,9 @@ fn us(t: u64) -> u64 {
     t.saturating_sub(T0.load(Ordering::SeqCst)) / 1000
 }
 
+/// index -> coroutine id, for cancel requests made from inside a run slice
+static IDS: std::sync::Mutex<Vec<(u64, u64)>> = std::sync::Mutex::new(Vec::new());
+
 fn body(c: u64, steps: Vec<Value>, s: &open_coroutine_core::scheduler::SchedulableSuspender) -> Option<usize> {
     rec(json!({"ev": "resumed", "co": c, "now": us(now())}));
     ACTIVITY.fetch_add(1, Ordering::SeqCst);
@@ -25,6 +28,15 @@ fn body(c: u64, steps: Vec<Value>, s: &open_coroutine_core::scheduler::Schedulab
         ACTIVITY.fetch_add(1, Ordering::SeqCst);
         let step = st["step"].as_str().unwrap();
         let d = st["d"].as_u64().unwrap_or(0);
+        // a cancel request made during the run slice, before the step: for this coroutine or another one
+        let k = st.get("cancel").and_then(Value::as_u64).unwrap_or(0);
+        if k != 0 {
+            let id = IDS.lock().unwrap().iter().find(|x| x.0 == k).map(|x| x.1);
+            if let Some(id) = id {
+                rec(json!({"ev": "cancel", "co": k, "by": c}));
+                Scheduler::try_cancel_coroutine(id);
+            }
+        }
         match step {
             "suspend" => {
                 rec(json!({"ev": "yield", "co": c, "kind": "suspend", "ts": 0, "v": 0}));
@@ -98,6 +110,7 @@ fn do_pass(sch: &mut Scheduler<'static>, ids: &HashMap<u64, u64>, timeout_ms: u6
 fn run_scenario(sc: &Value) {
     T0.store(now(), Ordering::SeqCst);
     let nco = sc["nco"].as_u64().unwrap();
+    IDS.lock().unwrap().clear();
     rec(json!({"ev": "sreset", "scenario": sc["id"], "nco": nco}));
     let hist = sc["hist"].as_array().unwrap();
     let mut sch = Scheduler::new(format!("sched-{}", sc["id"]), 128 * 1024);
@@ -114,6 +127,7 @@ fn run_scenario(sc: &Value) {
                 let id = sch.submit_co(move |s, ()| body(c, steps, s), None, Some(prio)).expect("submit");
                 ids.insert(id, c);
                 idx2id.insert(c, id);
+                IDS.lock().unwrap().push((c, id));
                 rec(json!({"ev": "submit", "co": c, "prio": h["prio"]}));
             }
             "tick" => std::thread::sleep(Duration::from_millis(TICK_MS)),
